@@ -7,6 +7,8 @@ qualified paths, look-alikes inside (), [], {}, match arms, nested join! calls, 
 text, shifts / ranges / or-patterns; overlapping operator families adjacent to each other; `~` and `>>>` flags on
 the following operator; commas and handlers directly after operand-less operators.
 """
+import random
+
 from .driver import Program, pack
 from .dsl import *
 from .gen_c01 import build
@@ -191,6 +193,44 @@ def adversarial(tier, seed, start):
     return ps, i
 
 
+def critical_followers(tier, seed, start):
+    """Operands with a top-level look-alike inside a NOT YET COMPLETE operand (closure return type `->`, `fn(..) -> ..` in a
+    turbofish) followed by EACH member of the order-sensitive overlapping families (`=>[]` typed / untyped vs `=>`,
+    `?|>@` vs `?|>`): a rejected look-alike must not change which of two overlapping operators is recognised next."""
+    ps = []
+    i = start
+    crit = ["=>[]", "=>[]u", "?|>@", "?|>", "=>", "<|", "<=", "<->", ".."]
+    for op, t, sig, method, out in SITES:
+        if out is None:
+            continue
+        for sname, stext in SHAPES[sig]:
+            if sname not in ("ret-type", "method-generic", "try-op", "block-le", "turbofish-comma", "qualified-path", "generic-shr"):
+                continue
+            for nm in crit:
+                probe = Ctx(random.Random(7))
+                if OPS[nm](probe, out) is None:
+                    continue
+                i += 1
+                if tier == "quick" and sname != "ret-type" and (i + seed) % 3:
+                    continue
+                pid = "p%04d" % i
+                ctx = Ctx(rng(seed, pid), itlen=2)
+                inp = ctx.value(t)
+                st = site_step(ctx, op, t, sig, method, out, stext)
+                nxt = None
+                for _ in range(6):
+                    nxt = OPS[nm](ctx, st.out)
+                    if nxt is not None:
+                        break
+                if nxt is None:
+                    continue
+                prog = build(pid, "join", ctx, inp, [st, nxt], nxt.out, group="critical %s" % sname, extra_desc=dict(operator=op, operand_shape=sname, follower=nm))
+                if tier == "quick" and prog.weight > 14:
+                    continue
+                ps.append(prog)
+    return ps, i
+
+
 def adjacency(tier, seed, start):
     """overlapping families next to each other, operand-less operators followed by commas / handlers / other operators"""
     ps = []
@@ -294,6 +334,8 @@ def separators(tier, seed, start):
 def programs(tier, seed):
     ps = []
     a, i = adversarial(tier, seed, 0)
+    ps += a
+    a, i = critical_followers(tier, seed, i)
     ps += a
     a, i = adjacency(tier, seed, i)
     ps += a
